@@ -24,7 +24,13 @@ RULE = ("k-shortest-paths queries on the real core code: SearchAlgorithm::{KspSi
         "the number of via candidates, k up to the number of alternatives): single_via_paths_algorithm::run does not "
         "consult the termination model in its candidate loop -- only the two underlying searches do -- so whenever "
         "the model's two underlying searches finish under the limit the answer must be Ok (a `terminated` outcome is "
-        "accepted only when one of them runs into the limit). I vs M: status, iterations, both trees and every route hop "
+        "accepted only when one of them runs into the limit); an ACCESS model that charges turns (turn costs, not "
+        "restrictions: family sv_turn_penalty where the alternative has the smaller traversal-only share but the larger "
+        "total cost, and the one random world in five with a turn table): the first route's TOTAL cost (every edge's "
+        "cost plus the turn charge from the edge before it) must be the least total cost over all origin-destination "
+        "walks, decided by a checked dual certificate on EDGES (the objective depends on the previous edge) and judged "
+        "only where it is unambiguous, i.e. when the underlying vertex-labelling search itself reached the destination "
+        "at that certified optimum; the order of routes 2..k is not judged (the code does not sort them). I vs M: status, iterations, both trees and every route hop "
         "(floats bit-exact) and the AcceptAll route count, skipped when the model had to choose among equal priorities "
         "(TIE). I vs S, all cases: the verified checker evaluated in Coq over exact rationals on the implementation's "
         "routes (1..k routes; each a chained origin-destination walk visiting no vertex twice; pairwise distinct; no "
